@@ -4,7 +4,7 @@ CONSTANTS
   K = 2
   NF = 3
   NG = 2
-  PF = "p2b"
+  PF = "p2a"
   TF = "t22s"
   PG = "p2a"
   TG = "t22s"
